@@ -50,6 +50,7 @@ def _types() -> dict[str, Any]:
     g["Holder"], g["SeqHolder"], g["BareHolder"], g["NestedUnionHolder"] = c20types.Holder, c20types.SeqHolder, c20types.BareHolder, c20types.NestedUnionHolder
     g["TupleHolder"] = c20types.TupleHolder
     g["SameOriginUnionHolder"] = c20types.SameOriginUnionHolder
+    g["RedeclaredHolder"] = c20types.RedeclaredHolder
     return g
 
 
@@ -61,7 +62,7 @@ class AlwaysEq:
         return 7
 
 
-WRAPPERS = ("list", "tuple", "dict", "state", "stateseq", "barestate", "nestedunionstate", "tuplestate", "sameoriginunionstate")
+WRAPPERS = ("list", "tuple", "dict", "state", "stateseq", "barestate", "nestedunionstate", "tuplestate", "sameoriginunionstate", "redeclaredstate")
 
 
 def wrap(kind: str, inner: Any, sib: Any = None) -> Any:
@@ -82,6 +83,8 @@ def wrap(kind: str, inner: Any, sib: Any = None) -> Any:
         return g["TupleHolder"](pair=(inner, 4), tag=4)
     if kind == "sameoriginunionstate":
         return g["SameOriginUnionHolder"](pair=(5, inner), tag=5)
+    if kind == "redeclaredstate":
+        return g["RedeclaredHolder"](value=inner, tag=6)
     return g["SeqHolder"](items=[inner] if sib is None else [sib, inner])
 
 
@@ -98,7 +101,7 @@ def walk(a: Any, b: Any, path: str, out: list[tuple[str, Any, Any]]) -> None:
     elif isinstance(a, dict) and isinstance(b, dict) and a.keys() == b.keys():
         for k in a:
             walk(a[k], b[k], f"{path}[{k!r}]", out)
-    elif isinstance(a, (g["Holder"], g["SeqHolder"], g["BareHolder"], g["NestedUnionHolder"], g["TupleHolder"], g["SameOriginUnionHolder"])) and type(a) is type(b):
+    elif isinstance(a, (g["Holder"], g["SeqHolder"], g["BareHolder"], g["NestedUnionHolder"], g["TupleHolder"], g["SameOriginUnionHolder"], g["RedeclaredHolder"])) and type(a) is type(b):
         for k in type(a).__ATTRIBUTES__:
             walk(getattr(a, k, None), getattr(b, k, None), f"{path}.{k}", out)
     else:
@@ -389,7 +392,13 @@ def run(R: Recorder, tier: str, seed: int, shard: int, nshards: int) -> None:
                 R.case({"shape": list(chain), "op": "construct"}, nontrivial=True)
                 R.monitor("identity", False, where={"op": "construct", "kind": "raised", "top": chain[0]}, detail=f"building {list(chain)} around MISSING raised {type(exc).__name__}: {exc}", case={"shape": list(chain), "op": "construct"})
                 continue
-            for op in OPS + (STATE_OPS if chain and chain[0] in ("state", "barestate", "stateseq", "nestedunionstate", "tuplestate", "sameoriginunionstate") else []):
+            # ... and what was built holds the MISSING object where it was put (a class that admits it does not swap it for something else)
+            held: list[tuple[str, Any, Any]] = []
+            walk(v, v, "$", held)
+            R.count("structures_built_around_missing")
+            R.monitor("identity", any(a is M for _, a, _ in held), where={"op": "construct", "kind": "changed", "top": chain[0] if chain else "bare"},
+                      detail=f"{list(chain)} built around MISSING holds {v!r}: the MISSING object is not in it", case={"shape": list(chain), "op": "construct"})
+            for op in OPS + (STATE_OPS if chain and chain[0] in ("state", "barestate", "stateseq", "nestedunionstate", "tuplestate", "sameoriginunionstate", "redeclaredstate") else []):
                 check_roundtrip(R, list(chain), v, op, depth)
             # a variant with a look-alike sibling next to the innermost MISSING
             if depth >= 1:
